@@ -293,7 +293,7 @@ package parser2
 //@   requires tokenizer != nil && bufOK(tokenizer) && unaryOK(p)
 //@   ensures[buffer] bufOK(tokenizer) && pos(tokenizer) >= old(pos(tokenizer))
 //@   ensures[closer-consumed] result1 == nil ==> result0 != nil && pos(tokenizer) > old(pos(tokenizer)) && streamTok(tokenizer, pos(tokenizer)-1).typ == tCloseCurly
-//@   assigns tokenizer.token, tokenizer.tokenAvail, cpos(tokenizer), glvl(tokenizer), any []string, any *[]string, any []AST, any []listMap.listMapEntry[AST]
+//@   assigns tokenizer.token, tokenizer.tokenAvail, cpos(tokenizer), glvl(tokenizer), any []string, any *[]string, any []AST, any []listMap.listMapEntry[AST], any []Case[V]
 //@   loop 1 invariant bufOK(tokenizer) && pos(tokenizer) >= old(pos(tokenizer))
 
 //@ func (p *Parser[V]) parseIdentList
